@@ -1,2 +1,8 @@
 """Narrow matchers for the open known findings listed in KNOWN_FINDINGS.txt.
 matcher(case, implementation_result, oracle_message) -> bool"""
+
+def c04_pow_identity(case, res, msg):
+    """F6: a ** b where only one operand defines a coordinate (or holds NaN) and the other is base 1 /
+    exponent 0 gives 1.0 (NumPy's 1**nan == nan**0 == 1), not NaN"""
+    o = case['ops'][0]
+    return o[0] == 'binop' and o[1] == '**' and msg.startswith('pow-identity:')
